@@ -48,6 +48,7 @@ PROPS = {
         'parts': [
             part('load', LOAD, 260, 5000, judge=True, props=['C13'], chunk=12, ns=[2, 4, 8]),
             part('big', LOAD, 16, 600, judge=True, props=['C13'], chunk=2, ns=[16, 32, 64], kind='static'),
+            part('storm', LOAD, 500, 8000, judge=True, props=['C13'], chunk=25, ns=[2, 3], storm=1.0, caps=[1024]),
         ],
     },
     'C12': {
@@ -147,7 +148,7 @@ PROPS = {
             part('hooks', GEN, 250, 5000, monitors=[M.mon_c01], props=['C01'], chunk=60, sub='hooks'),
             part('matrix', ACTIONS, 500, 10000, monitors=[M.mon_c01], props=['C01'], sub='matrix'),
             part('duel', ACTIONS, 300, 6000, monitors=[M.mon_c01], props=['C01'], sub='duel'),
-            part('b2b', ACTIONS, 400, 8000, monitors=[M.mon_c01], props=['C01'], sub='b2b'),
+            part('b2b', ACTIONS, 900, 12000, monitors=[M.mon_c01], props=['C01'], sub='b2b'),
             part('flow-sqlite', FLOW, 40, 800, monitors=[M.mon_c01], props=['C01'], sub='plain', variants=1, scheds=['cur-fifo', 'cur-chaos'], snap='live', store='sqlite', restart=0.6, chunk=8),
             part('error-sqlite', ERROR, 40, 800, monitors=[M.mon_c01], props=['C01'], store='sqlite', restart=0.6, chunk=8, snap='live'),
         ],
@@ -164,7 +165,7 @@ PROPS = {
             part('error', ERROR, 500, 8000, monitors=[M.mon_c02], props=['C02'], chunk=60, second_error=True),
             part('gen', GEN, 200, 4000, monitors=[M.mon_c02], props=['C02'], chunk=60, sub='gen'),
             part('sub', SUB, 200, 4000, monitors=[M.mon_c02], props=['C02'], chunk=60),
-            part('b2b', ACTIONS, 400, 8000, monitors=[M.mon_c02], props=['C02'], sub='b2b'),
+            part('b2b', ACTIONS, 900, 12000, monitors=[M.mon_c02], props=['C02'], sub='b2b'),
             part('flow-sqlite', FLOW, 40, 800, monitors=[M.mon_c02], props=['C02'], sub='plain', variants=1, scheds=['cur-fifo', 'cur-chaos'], snap='live', store='sqlite', restart=0.6, chunk=8),
             part('error-sqlite', ERROR, 40, 800, monitors=[M.mon_c02], props=['C02'], store='sqlite', restart=0.6, chunk=8, snap='live'),
         ],
@@ -179,7 +180,7 @@ PROPS = {
             part('mixed', FLOW, 100, 1500, monitors=[M.mon_c03], props=['C03'], sub='mixed', variants=2, scheds=QUIESCENT),
             part('loop', FLOW, 60, 600, monitors=[M.mon_c03], props=['C03'], sub='loop', variants=2, scheds=QUIESCENT),
             part('error', ERROR, 300, 6000, monitors=[M.mon_c03], props=['C03'], chunk=60, second_error=True),
-            part('b2b', ACTIONS, 400, 8000, monitors=[M.mon_c03], props=['C03'], sub='b2b'),
+            part('b2b', ACTIONS, 900, 12000, monitors=[M.mon_c03], props=['C03'], sub='b2b'),
             part('flow-sqlite', FLOW, 40, 800, monitors=[M.mon_c03], props=['C03'], sub='plain', variants=1, scheds=['cur-fifo', 'cur-chaos'], snap='rows', store='sqlite', restart=0.6, chunk=8),
             part('error-sqlite', ERROR, 40, 800, monitors=[M.mon_c03], props=['C03'], store='sqlite', restart=0.6, chunk=8, snap='rows'),
         ],
@@ -196,7 +197,7 @@ PROPS = {
             part('gen', GEN, 200, 4000, monitors=[M.mon_c08], props=['C08'], chunk=60, sub='gen'),
             part('hooks', GEN, 200, 4000, monitors=[M.mon_c08], props=['C08'], chunk=60, sub='hooks'),
             part('sub', SUB, 200, 4000, monitors=[M.mon_c08], props=['C08'], chunk=60),
-            part('b2b', ACTIONS, 400, 8000, monitors=[M.mon_c08], props=['C08'], sub='b2b'),
+            part('b2b', ACTIONS, 900, 12000, monitors=[M.mon_c08], props=['C08'], sub='b2b'),
             part('flow-sqlite', FLOW, 40, 800, monitors=[M.mon_c08], props=['C08'], sub='plain', variants=1, scheds=['cur-fifo', 'cur-chaos'], snap='live', store='sqlite', restart=0.6, chunk=8),
             part('error-sqlite', ERROR, 40, 800, monitors=[M.mon_c08], props=['C08'], store='sqlite', restart=0.6, chunk=8, snap='live'),
         ],
